@@ -182,7 +182,7 @@ func c13e2case(out *rec.Out, d c13def, ops []c13op, stats map[string]int) {
 		ts := clk.VerifArmed()
 		xs := make([]int64, len(ts))
 		for i, t := range ts {
-			xs[i] = int64(t.Sub(c13T0) / time.Second)
+			xs[i] = c13sec(t)
 		}
 		sort.Slice(xs, func(i, j int) bool { return xs[i] < xs[j] })
 		out.Line("n %s %d %s", name, arg, c13list(xs))
